@@ -263,6 +263,13 @@ def check_state(im, site, discr, sched, n_interior, opi, request):
         if not excess <= ps * (1 + 1e-9) + t:
             raise Violation("excess<=one-pixel", site, discr + "/" + nm,
                             "%s range %r exceeds the requested %r by %r > pixel_size %r; %s" % (nm, got, (lo, hi), excess, ps, state), opi)
+    # "every image produced has exactly the reported resolution": also inside a collection, also for an empty diagram
+    mid = [(br[0] + br[1]) / 2.0, (pr[0] + pr[1]) / 2.0]
+    imgs = im.transform([np.array([mid]), np.zeros((0, 2)), np.array([mid, mid])], skew=False)
+    for q, img in enumerate(imgs):
+        if tuple(np.shape(img)) != tuple(int(r) for r in res):
+            raise Violation("image-shape==resolution", site, discr + ("/empty-in-collection" if q == 1 else "/in-collection"),
+                            "image #%d of a collection has shape %r, resolution is %r; %s" % (q, np.shape(img), tuple(res), state), opi)
     return edge_probes(im, site, discr, sched, n_interior, opi)
 
 
